@@ -123,6 +123,9 @@ void sess_make_input(Sess* s, const Plan* p) {
     gen_input(&r, (int)plan_get(p, "in_kind", 0), s->in, n);
     /* optional alphabet reduction: turns random stretches into entropy-only noise (large Huffman literal sections, few matches) */
     { int const alpha = (int)plan_get(p, "in_alpha", 0); size_t i; if (alpha > 1) for (i = 0; i < n; i++) s->in[i] = (uint8_t)(32 + s->in[i] % alpha); }
+    /* optional ending: a run of one byte (a multiple of 32 long inside the last block, reaching back into the block before) closed by 1-31 bytes of another value */
+    { size_t const t = (size_t)plan_get(p, "in_runtail", 0), run = (size_t)plan_get(p, "in_runlen", 0) + 256;
+      if (t && n > t + run) { memset(s->in + (n - t - run), 'x', run); memset(s->in + (n - t), 'Q', t); } }
 }
 void sess_make_dict(Sess* s, const Plan* p) {
     int kind = (int)plan_get(p, "dict_kind", 0); size_t n = (size_t)plan_get(p, "dict_size", 0); Rng r;
@@ -377,7 +380,15 @@ void sess_check_conformance(const uint8_t* wire, size_t wire_size, const uint8_t
         if (memcmp(out + op, expect + op, info.produced)) sim_violation("conf_content", "frame %d: independent decoder regenerates different bytes than the input consumed", nf);
         if (f.has_fcs && f.fcs != info.produced) sim_violation("conf_fcs", "frame %d: Frame_Content_Size %llu but content is %zu bytes", nf, (unsigned long long)f.fcs, info.produced);
         if (f.checksum_flag) { uint32_t c = (uint32_t)ref_xxh64(out + op, info.produced, 0); if (c != f.stored_checksum) sim_violation("conf_checksum", "frame %d: stored checksum %08x, XXH64 of content gives %08x", nf, f.stored_checksum, c); }
-        if (dictid_known && f.dict_id != expect_dictid) sim_violation("conf_dictid", "frame %d: header dictID %u, expected %u", nf, f.dict_id, expect_dictid);
+        if (dictid_known == 1 && f.dict_id != expect_dictid) sim_violation("conf_dictid", "frame %d: header dictID %u, expected %u", nf, f.dict_id, expect_dictid);
+        /* dictid_known == 2: the session may hold frames made without the dictionary (legacy init functions drop it); a frame that the
+         * independent decoder cannot regenerate WITHOUT the dictionary has used it, and its header must then name it */
+        if (dictid_known == 2 && dict && dict_size && f.dict_id != expect_dictid) {
+            RefInfo i2; uint8_t* o2 = (uint8_t*)malloc(info.produced + 1); int const standalone = refdec_frame(o2, info.produced, wire + ip, f.total_size, NULL, 0, magicless, &i2) == 0 && i2.produced == info.produced && !memcmp(o2, out + op, info.produced);
+            refdec_info_free(&i2); free(o2);
+            if (!standalone) sim_violation("conf_dictid", "frame %d needs the dictionary (ID %u) to be decoded, but its header says Dictionary_ID %u", nf, expect_dictid, f.dict_id);
+            else sim_probe("conf.frame_without_dictionary_in_dict_session");
+        }
         bmax = f.window_size < (128u << 10) ? (size_t)f.window_size : (128u << 10);
         if (bmax < 1) bmax = 1;   /* empty single-segment frame */
         for (b = 0; b < info.nblocks; b++) {
